@@ -31,11 +31,15 @@ class WorkflowContext:
     @property
     def deterministic(self) -> DeterministicExecutor:
         """Get the deterministic executor for this workflow context."""
-        if self._deterministic is None:
-            self._deterministic = DeterministicExecutor(
-                self.task.invocation.workflow, self.task.app
-            )
-        return self._deterministic
+        # One executor per body execution: it lives on the running invocation (taken from
+        # the thread-local invocation context), not on this context, which belongs to the
+        # Task object shared by every workflow, attempt and thread of the process.
+        invocation = self.task.invocation
+        executor = getattr(invocation, "_wf_deterministic", None)
+        if executor is None:
+            executor = DeterministicExecutor(invocation.workflow, self.task.app)
+            invocation._wf_deterministic = executor  # type: ignore[attr-defined]
+        return executor
 
     @property
     def app(self) -> Pynenc:
